@@ -95,7 +95,11 @@ def dtcwt_cases(ck, n, ops):
             hr = gen.int_tensor(rng, (nb, c, 6, r, cc)); hi = gen.int_tensor(rng, (nb, c, 6, r, cc))
             ext = op.startswith('inv_j1')
             ll = gen.int_tensor(rng, (nb, c, 2 * r + (rng.choice([0, 0, 2]) if ext else 0), 2 * cc + (rng.choice([0, 0, 2]) if ext else 0)))
-            which = rng.choice(['all', 'all', 'all', 'nohigh', 'nolow'])
+            which = rng.choice(['all', 'all', 'all', 'nohigh', 'nolow', 'zerohigh', 'zerolow'])
+            if which == 'zerohigh':          # present but identically zero: NOT the same call as an absent band
+                hr = np.zeros_like(hr); hi = np.zeros_like(hi)
+            if which == 'zerolow':
+                ll = np.zeros_like(ll)
             a = [ll if which != 'nolow' else None, hr if which != 'nohigh' else None, hi if which != 'nohigh' else None]
             if op == 'inv_j1':
                 yield rt.Case('Q', op, [sym], [h0, h1] + a, dict(tag, absent=which))
@@ -130,6 +134,10 @@ def dtcwt_cases(ck, n, ops):
                 k = rng.randrange(J); highs[k] = None; absent = 'high%d' % (k + 1)
             elif w < 0.32:
                 low = None; absent = 'low'
+            elif w < 0.45:
+                k = rng.randrange(J); highs[k] = np.zeros_like(highs[k]); absent = 'zeros-high%d' % (k + 1)
+            elif w < 0.5:
+                low = np.zeros_like(low); absent = 'zeros-low'
             yield rt.Case('Q', 'DTCWTInverse', [o, ri, sym, rng.randint(0, 2)], filt + [low] + highs, dict(tag, J=J, o=o, ri=ri, absent=absent, H=H, W=W))
         else:
             raise ValueError(op)
